@@ -87,11 +87,30 @@ type c16Op struct {
 	Stream []ev.Event
 }
 
+// c16PrevUnsupported: the unsupported value of the previous operation of this history (single-goroutine worker).
+var c16PrevUnsupported interface{}
+
 func c16Value(c *fw.Ctx, i int, recursion bool) (interface{}, string, bool) {
+	if i == 0 {
+		c16PrevUnsupported = nil
+	}
+	if prev := c16PrevUnsupported; prev != nil && c.Rng.Intn(2) == 0 {
+		// the pointer to (or the target of) the value that has just failed: sub-iterators/builders cached during the failed
+		// generation are reached again through a different entry type
+		c16PrevUnsupported = nil
+		rv := reflect.ValueOf(prev)
+		if rv.Kind() == reflect.Ptr && !rv.IsNil() {
+			return rv.Elem().Interface(), "unsupported-pointee-after-pointer", true
+		}
+		p := reflect.New(rv.Type())
+		p.Elem().Set(rv)
+		return p.Interface(), "unsupported-pointer-after-value", true
+	}
 	switch c.Rng.Intn(7) {
 	case 0:
 		u := gen.UnsupportedValues()
 		k := c.Rng.Intn(len(u))
+		c16PrevUnsupported = u[k]
 		return u[k], fmt.Sprintf("unsupported#%d", k), true
 	case 1:
 		// a struct type never seen before by this process (first-use path of the type caches)
